@@ -55,4 +55,37 @@ def replay(contract, inputs):
 
 
 def search(contract):
+    if contract.ghost.get('k3'):
+        return k3_search(contract)
     return run_job(job_for(contract, 'search'), timeout=600)
+
+
+def k3_search(contract, budget=3000):
+    """instantiate the schema's holes and probes from the catalogues and check the same
+    contract strings concretely on the real compiler + runtime"""
+    spec = contract.ghost.get('spec', {})
+    job = {'repo': REPO, 'verif': VERIF, 'template': contract.ghost['template'],
+           'options': contract.ghost.get('options', {}), 'cls': spec.get('cls', 'PageTemplate'),
+           'ensures': list(contract.ensures), 'raises': contract.raises,
+           'loops': {str(k): {'lemmas': v.get('lemmas', [])} for k, v in contract.loops.items()},
+           'own_names': spec.get('own_names', []), 'budget': budget,
+           'seed': int(os.environ.get('VERIF_SEED', '0') or 0)}
+    fd, path = tempfile.mkstemp(prefix='pyvc-k3job-', suffix='.json')
+    try:
+        with os.fdopen(fd, 'w') as f:
+            json.dump(job, f)
+        env = dict(os.environ)
+        env.pop('PYTHONPATH', None)
+        p = subprocess.run([PY, os.path.join(VERIF, 'bounded', 'k3_harness.py'), path],
+                           capture_output=True, text=True, timeout=900, env=env)
+        line = [ln for ln in p.stdout.strip().split('\n') if ln.startswith('{')]
+        if not line:
+            return {'verdict': 'error', 'detail': {'stdout': p.stdout[-2000:], 'stderr': p.stderr[-2000:]}}
+        return json.loads(line[-1])
+    except subprocess.TimeoutExpired:
+        return {'verdict': 'error', 'detail': {'error': 'k3 search timeout'}}
+    finally:
+        try:
+            os.unlink(path)
+        except OSError:
+            pass
